@@ -122,7 +122,9 @@ def run(repo, rep):
               'exceptions that leave the provider thread: ' + ' | '.join(origins))
 
     # E9 ---------------------------------------------------------------------
-    from ..api_pitfalls import loop_progress_problems
+    from ..api_pitfalls import loop_progress_problems, selfcheck_loop_progress
+    if not selfcheck_loop_progress():
+        raise AnalysisError('C12.E9 self-check failed: the rule does not tell its positive example from its negative one')
     p8, n8 = loop_progress_problems(repo)
     rep.rule('C12.E9', 'no input makes a decoder spin: in every ``while`` loop of the peer-driven modules whose test reads locals, each '
              'path back to the test (end of body, ``continue``) has assigned one of them or called a method on it', 1)
